@@ -194,6 +194,17 @@ else:
     NotifyPeriodType = conint(ge=1, le=600)
 
 
+def _reject_fractional_number(value: Any) -> Any:
+    # pydantic truncates a float or Decimal that is given for an integer field (1.5 becomes 1).
+    # A number with a fractional part is not an integer: reject it *before* the type coercion.
+    if (isinstance(value, float) and not value.is_integer()) or (
+        isinstance(value, Decimal)
+        and not (value.is_finite() and value == value.to_integral_value())
+    ):
+        raise ValueError("Value must be an integer.")
+    return value
+
+
 class CancelationMethodNotifyThenTerminate(OpenJDModel_v2023_09):
     """Notify-then-terminate cancelation mode for an Action.
 
@@ -226,6 +237,10 @@ class CancelationMethodNotifyThenTerminate(OpenJDModel_v2023_09):
 
     mode: Literal[CancelationMode.NOTIFY_THEN_TERMINATE]
     notifyPeriodInSeconds: Optional[NotifyPeriodType] = None  # noqa: N815
+
+    @validator("notifyPeriodInSeconds", pre=True)
+    def _validate_notify_period_is_integer(cls, value: Any) -> Any:
+        return _reject_fractional_number(value)
 
 
 class CancelationMethodTerminate(OpenJDModel_v2023_09):
@@ -268,6 +283,10 @@ class Action(OpenJDModel_v2023_09):
     cancelation: Optional[
         Union[CancelationMethodNotifyThenTerminate, CancelationMethodTerminate]
     ] = Field(None, discriminator="mode")
+
+    @validator("timeout", pre=True)
+    def _validate_timeout_is_integer(cls, value: Any) -> Any:
+        return _reject_fractional_number(value)
 
 
 class StepActions(OpenJDModel_v2023_09):
@@ -1423,6 +1442,10 @@ class JobIntParameterDefinitionUserInterface(OpenJDModel_v2023_09):
     groupLabel: Optional[UserInterfaceLabelStringValue]
     singleStepDelta: Optional[PositiveInt]
 
+    @validator("singleStepDelta", pre=True)
+    def _validate_single_step_delta_is_integer(cls, value: Any) -> Any:
+        return _reject_fractional_number(value)
+
 
 class JobIntParameterDefinition(OpenJDModel_v2023_09):
     """A Job Parameter of type integer.
@@ -1633,6 +1656,10 @@ class JobFloatParameterDefinitionUserInterface(OpenJDModel_v2023_09):
     groupLabel: Optional[UserInterfaceLabelStringValue]
     decimals: Optional[PositiveInt]
     singleStepDelta: Optional[PositiveFloat]
+
+    @validator("decimals", pre=True)
+    def _validate_decimals_is_integer(cls, value: Any) -> Any:
+        return _reject_fractional_number(value)
 
 
 class JobFloatParameterDefinition(OpenJDModel_v2023_09):
